@@ -257,7 +257,7 @@ class Run:
             try:
                 run.on_stop_runlogs.append((run.tickno, run.runlog_items()))
             except Exception as ex:  # recorded; C15 reports it
-                run.on_stop_runlogs.append((run.tickno, f"ERR:{type(ex).__name__}"))
+                run.on_stop_runlogs.append((run.tickno, f"ERR:{type(ex).__name__}:{run.diagnose_runlog_failure()}"))
             return orig()
         emitter.emit_on_stop = emit_on_stop
 
@@ -359,6 +359,21 @@ class Run:
                         "forced": it.forced})
         return out
 
+    def diagnose_runlog_failure(self) -> str:
+        """Which record breaks get_runlog(): '<instruction>:<states from the first concluding one on>'."""
+        rt = self.engine.tracking.runtimeinfo
+        for r in rt.records_filtered:
+            try:
+                rt._get_record_runlog_items(r)
+            except BaseException:
+                for states in rt._split_states_by_instance_id(r):
+                    names = [str(st.state_name).split(".")[-1].lower() for st in states]
+                    for i, n in enumerate(names):
+                        if n in ("completed", "failed", "cancelled") and i + 1 < len(names):
+                            return f"{(r.name or '?').split(':')[0]}:{'>'.join(names[i:])}"
+                return f"{(r.name or '?').split(':')[0]}:?"
+        return "?"
+
     def node_flags(self) -> dict:
         """Flags of every node of the current program (by line id)."""
         out = {}
@@ -416,7 +431,7 @@ class Run:
             try:
                 ob["runlog"] = self.runlog_items()
             except BaseException as ex:  # C15 monitor
-                ob["runlog"] = f"ERR:{type(ex).__name__}"
+                ob["runlog"] = f"ERR:{type(ex).__name__}:{self.diagnose_runlog_failure()}"
                 self.runlog_errors.append((self.tickno, type(ex).__name__))
         ob["instances"] = sorted(self.uod.command_instances.keys())
         ob["registry"] = sorted(self.engine.registry._command_instances.keys())
